@@ -92,6 +92,19 @@ Theorem C04_rollback_restores_the_index :
 Proof. exact rollback_restores_index. Qed.
 Print Assumptions C04_rollback_restores_the_index.
 
+(* the same for blocks given in ascending order of their numbers: "inputs name transactions at lower positions" then follows
+   from "an input never names its own or a later transaction" *)
+Theorem C04_rollback_restores_the_index_ascending :
+  forall regs bs1 bs2 n,
+    well_formed_chain (bs1 ++ bs2) -> ascending (bs1 ++ bs2) -> refs_backwards (chain_txs (bs1 ++ bs2)) ->
+    spent_once (chain_txs (bs1 ++ bs2)) ->
+    (forall b, In b bs1 -> b_number b < n) -> (forall b, In b bs2 -> n <= b_number b) ->
+    NoDup (map (fun x => (ss_type x, ss_script x)) regs) ->
+    exists st', rollback_to_block (fold_left filter_block (bs1 ++ bs2) (fresh_store regs)) n = Ok st' /\
+                forall k, a_get ckey_eqb k (cells st') = spec_chain (reg_of regs) bs1 k.
+Proof. exact rollback_restores_index_ascending. Qed.
+Print Assumptions C04_rollback_restores_the_index_ascending.
+
 (* non-vacuity: block 1 creates two cells of the watched lock script 5; the abandoned block 2 spends the first and creates
    another; the hypotheses hold, and after the rollback to 2 exactly the two cells of block 1 are live *)
 Definition ex_t1 : tx := mkTx 100 [] [mkOut 5 None; mkOut 5 (Some 6)].
